@@ -1,6 +1,6 @@
 """C05 — compact changes nothing a reader can see."""
 import json, os, shutil
-from .. import common, framework, fndiff, cmdrun, gen, oracles
+from .. import common, framework, fndiff, cmdrun, gen, oracles, explore2
 from ..histories import run_history, replay_trace, mode_of, fieldset
 
 WEIGHTS = {"new_task": 20, "new_epic": 6, "set": 34, "claim": 6, "claim_oldest": 8, "sequence": 10, "sequence_rm": 3, "plan": 4, "prune_yes": 4, "compact": 5}
@@ -89,9 +89,16 @@ def run(ctx):
     n = 14 if ctx.quick else 250
     for h in range(n):
         twin_history(ctx, r.fork(), 40, legacy=(h % 5 == 4), torn=(h % 3 == 2))
+    # compact against a concurrent writer: what it writes must be the collapse of the log as it is *under its lock* — a writer that commits
+    # between compact's read and its rewrite must not be undone (two-process schedules, compact parked before / inside / after its lock section)
+    for i in range(2 if ctx.quick else 30):
+        explore2.explore(ctx, "C05", r.fork(), kindsA=("compact",), kindsB=("set+state", "new", "claim_oldest", "set", "reopen", "sequence"),
+                         max_points=(6 if ctx.quick else 40), state_cmds=8, legacy=(i % 3 == 2))
     ctx.cov["rule"] = ("random event lists → Go compactEvents∘replayEvents vs model; twin stores driven by one seeded history with scripted RNG, compact inserted at random "
                        "points in one of them (legacy file name and torn tails included): observables, claim order, pruned ids, idempotence, later commands compared")
 
 
 def replay(ctx, doc):
+    if explore2.is_schedule_replay(doc):
+        return explore2.replay(ctx, doc)
     return 0
